@@ -25,5 +25,5 @@ for d in sorted(glob.glob('seeded/*')):
     if not os.path.isfile(d+'/meta.json'): continue
     m=json.load(open(d+'/meta.json'))
     caught=[f"{k}: {v['first'][:100]}" for k,v in m.get('checks_run',{}).items() if isinstance(v,dict) and v.get('exit')==1]
-    rows.append(f"| `{os.path.basename(d)}` | {m['breaks_property']} | {m.get('round','')} | {m['needs_to_manifest']} | {'yes' if m.get('caught_before_any_strengthening') else 'no'} | {m.get('strengthening_it_prompted','—')} | {'<br>'.join(caught) if caught else '**not caught**'} |")
+    rows.append(f"| `{os.path.basename(d)}` | {m['breaks_property']} | {m.get('round','')} | {m['needs_to_manifest']} | {'yes' if m.get('caught_before_any_strengthening') else 'no'} | {m.get('strengthening_it_prompted','—')} | {'<br>'.join(caught) if caught else ('not in the quick tier; ' + m['thorough_tier'] if m.get('thorough_tier') else '**not caught**')} |")
 open('seeded/README.md','w').write("# Seeded property-breaking changes\n\nEach directory: `patch.diff` (applies to /repo's HEAD), `demo.rs` (fails with the change, passes without), `NOTES.md` (the author's description), `meta.json` (property, what it needs to manifest, what was run). All were written by sub-agents that saw only the property text and a scratch worktree, were confirmed with `tools/confirm_mutant.sh` (patch applies; 41 unit tests pass with it; demonstration fails with it and passes without), and are exercised with `tools/run_seeded.sh` / `tools/seeded_all.py` (quick tier; the change is applied to /repo, the checks run, the change is undone).\n\n'caught before' = caught by the checks as they were when the change arrived (evaluated with the previous commit of /verif built in a scratch worktree); the next column says what was added because of it.\n\n| change | property | round | needs in order to manifest | caught before | strengthening it prompted | caught by now (quick tier) |\n|---|---|---|---|---|---|---|\n"+"\n".join(rows)+"\n")
